@@ -65,6 +65,7 @@ type Clause struct {
 }
 
 type LoopSpec struct {
+	Hints      []Clause // checked, then assumed, at the head of the arbitrary iteration (after the invariant)
 	Invariants []Clause
 	Decreases  Expr
 	DecSrc     string
@@ -78,6 +79,8 @@ type Param struct {
 }
 
 type ModLoc struct {
+	CastType string
+	Field    string
 	E    Expr // location expression
 	Kind string // "field" (x.f), "elems" (s[*]), "range" (s[a:b]), "cell" (*p), "allfields" (x.*), "map" (m[*])
 	Lo   Expr
@@ -150,7 +153,14 @@ type GuardDecl struct {
 	Mutex  string   // "T.field"
 }
 
+type AbstractFunc struct {
+	Name   string
+	Params []Param
+	Ret    string
+}
+
 type SpecDB struct {
+	Abstracts map[string]*AbstractFunc
 	Funcs  map[string]*FuncSpec
 	Pures  map[string]*PureFunc
 	Ghosts []GhostDecl
@@ -160,7 +170,7 @@ type SpecDB struct {
 }
 
 func NewSpecDB() *SpecDB {
-	return &SpecDB{Funcs: map[string]*FuncSpec{}, Pures: map[string]*PureFunc{}}
+	return &SpecDB{Funcs: map[string]*FuncSpec{}, Pures: map[string]*PureFunc{}, Abstracts: map[string]*AbstractFunc{}}
 }
 
 // ---------------- lexer ----------------
@@ -625,7 +635,11 @@ func readSpecLines(path string) ([]string, []int, error) {
 	for i, ln := range strings.Split(string(data), "\n") {
 		t := strings.TrimSpace(ln)
 		if strings.HasPrefix(t, "//@") {
-			out = append(out, strings.TrimPrefix(t, "//@"))
+			body := strings.TrimPrefix(t, "//@")
+			if strings.HasPrefix(strings.TrimSpace(body), "//") {
+				continue // comment inside a contract block
+			}
+			out = append(out, body)
 			nums = append(nums, i+1)
 		} else if isSpec {
 			if strings.HasPrefix(t, "#") || strings.HasPrefix(t, "//") {
@@ -641,7 +655,7 @@ func readSpecLines(path string) ([]string, []int, error) {
 var clauseKeywords = map[string]bool{
 	"pure": true, "ghost": true, "func": true, "extern": true, "requires": true, "ensures": true,
 	"modifies": true, "loop": true, "let": true, "replay": true, "trusted": true, "lemma": true,
-	"guarded": true, "captures": true, "noeffect": true, "hint": true,
+	"guarded": true, "captures": true, "noeffect": true, "hint": true, "abstract": true,
 }
 
 // joinClauses merges continuation lines (lines whose first word is not a keyword).
@@ -688,6 +702,19 @@ func (db *SpecDB) LoadFile(path, pkg string) error {
 				return fail(i, "%v", err)
 			}
 			db.Pures[p.Name] = p
+			cur = nil
+		case "abstract":
+			// abstract NAME(params) RET : an uninterpreted function (for lemma schemas)
+			i0 := strings.Index(rest, "(")
+			j0 := matchParen(rest, i0)
+			if i0 < 0 || j0 < 0 {
+				return fail(i, "abstract needs a parameter list")
+			}
+			ps, err := parseParamList(rest[i0+1:j0], true)
+			if err != nil {
+				return fail(i, "%v", err)
+			}
+			db.Abstracts[strings.TrimSpace(rest[:i0])] = &AbstractFunc{Name: strings.TrimSpace(rest[:i0]), Params: ps, Ret: strings.TrimSpace(rest[j0+1:])}
 			cur = nil
 		case "ghost":
 			// ghost field T.name type
@@ -811,6 +838,13 @@ func (db *SpecDB) LoadFile(path, pkg string) error {
 					return fail(i, "%v", err)
 				}
 				ls.Invariants = append(ls.Invariants, Clause{label, e, src})
+			case "hint":
+				label, src := splitLabel(r3)
+				e, err := ParseExpr(src)
+				if err != nil {
+					return fail(i, "%v", err)
+				}
+				ls.Hints = append(ls.Hints, Clause{label, e, src})
 			case "decreases":
 				e, err := ParseExpr(r3)
 				if err != nil {
@@ -1074,6 +1108,22 @@ func parseFuncHeader(rest string, extern bool) (*FuncSpec, error) {
 
 func parseModLoc(s string) (ModLoc, error) {
 	ml := ModLoc{Src: s}
+	if k := strings.Index(s, "[*].(*"); k >= 0 {
+		// X[*].(*T).f : field f of every element (interface to *T) of slice X
+		rest := s[k+len("[*].("):]
+		j := strings.Index(rest, ").")
+		if j < 0 {
+			return ml, fmt.Errorf("modifies: malformed each-form %q", s)
+		}
+		e, err := ParseExpr(s[:k])
+		if err != nil {
+			return ml, err
+		}
+		ml.E, ml.Kind = e, "eachfield"
+		ml.CastType = rest[:j]
+		ml.Field = rest[j+2:]
+		return ml, nil
+	}
 	switch {
 	case strings.HasSuffix(s, "[*]"):
 		e, err := ParseExpr(strings.TrimSuffix(s, "[*]"))
